@@ -499,7 +499,7 @@ func (x *Exec) evalCall0(e *ast.CallExpr, st *State) (Value, types.Type) {
 			delete(st.names, "$guardargs")
 			delete(st.names, "$guardargtypes")
 			x.restoreContractCtx(save)
-			x.oblige(st, "pre", "apply-guard@"+types.ExprString(e), phi, x.con.Opts["apply-guard"])
+			x.oblige(st, "pre", "apply-guard", phi, x.con.Opts["apply-guard"]+"  (at "+types.ExprString(e)+")")
 		}
 		if x.con != nil && x.con.Opts["trace-calls"] != "" {
 			// ghost trace of the applications of the named function values: tracedCount, tracedArg(k) = first argument
@@ -872,6 +872,8 @@ func (x *Exec) evalBuiltin(name string, e *ast.CallExpr, st *State) (Value, type
 			return m, t
 		case *types.Chan:
 			c := x.newRef(st, "chan")
+			arr := x.heapGet(st, "CH_closed", arraySort(SInt, SBool))
+			st.heap["CH_closed"] = Term{"(store " + arr.S + " " + c.S + " false)", arr.Sort} // a new channel is open
 			return c, t
 		}
 	case "new":
@@ -916,7 +918,10 @@ func (x *Exec) evalBuiltin(name string, e *ast.CallExpr, st *State) (Value, type
 		x.mapSet(st, m, ks, vs, Term{"(store " + has.S + " " + k.S + " false)", has.Sort}, x.mapVal(st, m, ks, vs))
 		return intLit(0), nil
 	case "close":
-		x.evalArgs(e.Args, st)
+		// ghost heap CH_closed: which channels have been closed (closed(c) in contracts)
+		cv := x.evalT(e.Args[0], st)
+		arr := x.heapGet(st, "CH_closed", arraySort(SInt, SBool))
+		st.heap["CH_closed"] = Term{"(store " + arr.S + " " + cv.S + " true)", arr.Sort}
 		return intLit(0), nil
 	case "real", "imag":
 		v := x.evalT(e.Args[0], st)
@@ -1424,6 +1429,12 @@ func (x *Exec) evalSpecCall(e *ast.CallExpr, st *State) (Value, types.Type) {
 			return tv[k], et
 		}
 		return rv.(Value), rt
+	case "closed": // closed(c): the channel has been closed (ghost heap written by close and make)
+		cv := x.evalT(e.Args[0], st)
+		arr := x.heapGet(st, "CH_closed", arraySort(SInt, SBool))
+		x.heapGet(newState(), "CH_closed", arraySort(SInt, SBool))
+		x.declare("(assert (not (select CH_closed_0 0)))", "ax_nil_chan_open") // a nil channel is never closed
+		return Term{"(select " + arr.S + " " + cv.S + ")", SBool}, types.Typ[types.Bool]
 	case "lastRecv": // the receiver of the latest recorded call of the method f
 		id, _ := e.Args[0].(*ast.Ident)
 		if id == nil {
@@ -1562,7 +1573,7 @@ func (x *Exec) evalSpecCall(e *ast.CallExpr, st *State) (Value, types.Type) {
 					}
 				}
 				switch id.Name {
-				case "implies", "iff", "ite", "old", "forall", "exists", "len", "has", "fresh", "substr", "nth", "forallS", "existsS", "forallR", "existsR", "atSelect", "calledAt", "tracedAt", "arg", "called", "lastArg", "lastRes", "lastRecv", "oldAt", "rvInt", "rvFloat", "rvComplex", "rvString", "rvBool", "rvIface":
+				case "implies", "iff", "ite", "old", "forall", "exists", "len", "has", "fresh", "substr", "nth", "forallS", "existsS", "forallR", "existsR", "atSelect", "calledAt", "tracedAt", "arg", "called", "lastArg", "lastRes", "lastRecv", "oldAt", "closed", "rvInt", "rvFloat", "rvComplex", "rvString", "rvBool", "rvIface":
 					isSpec = true
 				}
 			}
